@@ -166,6 +166,17 @@ class BaseDomain:
                 zip_longest=lambda *its, fillvalue=None: list(_it.zip_longest(*[L(i) for i in its], fillvalue=fillvalue)),
                 pairwise=lambda it: list(zip(L(it)[:-1], L(it)[1:])),
             )
+        if name == "bisect":
+            import bisect as _bs
+
+            def conc(f):
+                def g(seq, x, *a, **k):
+                    seq = list(L(seq))
+                    if not all(isinstance(v, (int, float)) and not isinstance(v, bool) for v in seq + [x]):
+                        raise Unsupported("bisect over symbolic values")
+                    return f(seq, x, *a, **k)
+                return g
+            return Namespace("bisect", bisect=conc(_bs.bisect), bisect_left=conc(_bs.bisect_left), bisect_right=conc(_bs.bisect_right))
         if name == "functools":
             return Namespace("functools", reduce=self._reduce,
                              partial=lambda f, *a, **k: (lambda *b, **kk: self._interp.call(f, list(a) + list(b), dict(k, **kk))))
@@ -341,12 +352,12 @@ class BaseDomain:
 
     # ---------------------------------------------------------------- protocol
     def ext_module(self, name):
-        if name in ("itertools", "functools"):
+        if name in ("itertools", "functools", "bisect"):
             return self.std_module(name)
         raise Unsupported(f"unknown-external module {name!r}")
 
     def truth(self, v):
-        if isinstance(v, (list, tuple, dict, str, set, int, float)):
+        if isinstance(v, (list, tuple, dict, str, set, int, float, range)):
             return bool(v)
         if isinstance(v, Poly):
             if v.is_const():
